@@ -1,6 +1,7 @@
 import CharsetProof.Props.C15
 import CharsetProof.Props.C15b
 import CharsetProof.Props.C15c
+import CharsetProof.Props.C15d
 open Charset
 #print axioms fsGet_fsPut
 #print axioms processFile_effect
@@ -15,3 +16,5 @@ open Charset
 #print axioms go_writes
 #print axioms C15_multi_effect
 #print axioms C15_multi_replace_force
+#print axioms C15_written_is_strict_decode
+#print axioms C15_written_roundtrip
